@@ -196,7 +196,7 @@ pub fn c07(ctx: &Ctx, begin: &mut dyn FnMut(J)) -> Outcome {
     );
     // manual resolutions more often than not, so levels are always present
     if r.chance(2, 3) {
-        case.opts.zoom = Zoom::Manual(match r.below(10) {
+        case.opts.zoom = Zoom::Manual(match r.below(11) {
             0 => vec![1],
             1 => vec![4],
             2 => vec![7, 13],
@@ -207,11 +207,16 @@ pub fn c07(ctx: &Ctx, begin: &mut dyn FnMut(J)) -> Outcome {
             6 => vec![100, 7],
             7 => vec![10, 10, 40],
             8 => vec![40, 0, 10],
+            // more sizes than the ten zoom-header slots of the format
+            9 => vec![2, 3, 5, 8, 13, 21, 34, 55, 89, 144, 233, 377],
             _ => vec![*r.pick(&[2, 3, 5, 10, 25]), 400],
         });
         if let Zoom::Manual(v) = &case.opts.zoom {
             if v.windows(2).any(|w| w[0] > w[1]) {
                 case.tags.push("manual_zoom_list_not_ascending".into());
+            }
+            if v.len() > 10 {
+                case.tags.push("manual_zoom_list_longer_than_10".into());
             }
             if v.windows(2).any(|w| w[0] == w[1]) {
                 case.tags.push("manual_zoom_list_with_repeated_size".into());
@@ -338,7 +343,7 @@ pub fn c08(ctx: &Ctx, begin: &mut dyn FnMut(J)) -> Outcome {
     let mut r = Rng::derive(ctx.seed, 0xC08, ctx.case);
     let mut case = gen_bb_case(&mut r, &BbGenCfg { allow_zero_len: true, no_zero_zero: true, small_slots: true, max_chroms: 5, ncols: Some(0) });
     if r.chance(2, 3) {
-        case.opts.zoom = Zoom::Manual(match r.below(10) {
+        case.opts.zoom = Zoom::Manual(match r.below(11) {
             0 => vec![1],
             1 => vec![4],
             2 => vec![7, 13],
@@ -349,11 +354,16 @@ pub fn c08(ctx: &Ctx, begin: &mut dyn FnMut(J)) -> Outcome {
             6 => vec![100, 7],
             7 => vec![10, 10, 40],
             8 => vec![40, 0, 10],
+            // more sizes than the ten zoom-header slots of the format
+            9 => vec![2, 3, 5, 8, 13, 21, 34, 55, 89, 144, 233, 377],
             _ => vec![*r.pick(&[2, 3, 5, 10, 25]), 400],
         });
         if let Zoom::Manual(v) = &case.opts.zoom {
             if v.windows(2).any(|w| w[0] > w[1]) {
                 case.tags.push("manual_zoom_list_not_ascending".into());
+            }
+            if v.len() > 10 {
+                case.tags.push("manual_zoom_list_longer_than_10".into());
             }
             if v.windows(2).any(|w| w[0] == w[1]) {
                 case.tags.push("manual_zoom_list_with_repeated_size".into());
